@@ -83,7 +83,7 @@ def generate(rng, tier, index):
     if k in (3, 4, 5):
         return {'kind': 'grain', 'dist': rng.choice(['lognormal', 'hillert', 'bimodal']), 'mu': 1e-5 * rng.choice([0.5, 1, 2]), 'sigma': rng.choice([0.15, 0.3, 0.5]), 'seed': rng.randint(0, 10 ** 6),
                 'zf': rng.choice([0.0, 0.0, 0.05, 0.3, 0.9, 1.5, 5.0]), 'it': rng.choice(['euler', 'rk4']), 'ks': [rng.choice([5, 20, 60]) for _ in range(rng.choice([1, 2, 3]))],
-                'bins': 2 * rng.randint(40, 75), 'M': 1e-14 * rng.choice([1, 10]), 'gbe': rng.choice([0.5, 0.3]), 'alpha': rng.choice([1, 0.5])}
+                'bins': 2 * rng.randint(40, 75), 'M': 1e-14 * rng.choice([1, 10]), 'gbe': rng.choice([0.5, 0.3]), 'alpha': rng.choice([1, 0.5, 2, 3])}
     sp = gen_strength_params(rng)
     pts = []
     for _ in range(rng.randint(10, 25)):
@@ -253,6 +253,13 @@ def run_grain(rec, F, cnt, sig):
         if np.any(np.abs(c) > np.abs(g) * (1 + 1e-12)):
             j = int(np.argmax(np.abs(c) > np.abs(g) * (1 + 1e-12)))
             F.add('C18.drag_accelerates', f'Zener drag accelerated a boundary: unconstrained {g[j]!r}, constrained {c[j]!r} (z={z!r})', what='drag')
+        # documented law: alpha M gbe ((1/Rcr - 1/R) -/+ z), zero between the two limits
+        K_ = rec['alpha'] * rec['M'] * rec['gbe']
+        want = np.where(g - K_ * z > 0, g - K_ * z, np.where(g + K_ * z < 0, g + K_ * z, 0.0))
+        scale = max(float(np.max(np.abs(g))), 1e-300)
+        if np.max(np.abs(c - want)) > 1e-12 * scale:
+            j = int(np.argmax(np.abs(c - want)))
+            F.add('C18.drag_law', f'constrained boundary velocity {c[j]!r} for unconstrained {g[j]!r}, drag z={z!r}, alpha={rec["alpha"]}: documented alpha*M*gbe*(curvature -/+ z) gives {want[j]!r}', what='drag')
         return out
     gg.constrainedGrowth = cg_tap
     dR = R[1] - R[0]
